@@ -185,6 +185,12 @@ def check(obs, lim2=2500 * 2500):
                 pr.append(({"kind": "HG-kept", "distance": dcls}, f"{o['res']} is bridged but keeps HG"))
             elif not o["ffname"].endswith("CYX"):
                 pr.append(({"kind": "not-CYX", "distance": dcls}, f"{o['res']} is bridged but named {o['ffname']}"))
+            else:
+                # "bridged-cysteine parameters" are those of the bridged cysteine AT ITS CHAIN POSITION: the first
+                # residue of a chain is looked up as NCYX, the last as CCYX (first wins for a one-residue chain)
+                want = ("N" if o["n"] else "C" if o["c"] else "") + "CYX"
+                if o["ffname"].replace("NEUTRAL-", "") != want:
+                    pr.append(({"kind": "bridged-parameters-of-wrong-chain-position", "position": "N" if o["n"] else "C"}, f"{o['res']} is bridged and {'first' if o['n'] else 'last'} in its chain but is looked up as {o['ffname']}, not {want}"))
         elif len(nb) == 0 and o["name"] == "CYS":
             if o["bonded"] or not o["HG"] or not o["ffname"].endswith("CYS"):
                 pr.append(({"kind": "free-cys-changed", "distance": "-"}, f"{o['res']} has no sulfur within the limit but bonded={o['bonded']} HG={o['HG']} ffname={o['ffname']}"))
